@@ -4,7 +4,10 @@
  *   long  : one set of reader objects lives for the whole op list
  *   fresh : every op gets reader objects created just for that op (and destroyed after);
  *           caller-owned cursors (readdir state, "which table is loaded", stream progress)
- *           are kept by the harness, because they are arguments of the query, not reader state
+ *           are kept by the harness, because they are arguments of the query, not reader state;
+ *           the xattr reader's documented position indicator (fine-grained API: ops XG XGR XS XRK
+ *           XRV XRP XL XC XA) is re-established on the new reader by replaying the cursor-defining
+ *           calls since the last successful seek_kv -- never the lookups in between
  *
  * One canonical result line per op.  See props/C10/check.py for the op language.
  */
@@ -61,6 +64,10 @@ static tslot_t tslot[NSLOT];
 
 static sqfs_u8 *bigbuf;
 
+/* calls replayed silently (fresh mode: the cursor-defining prefix of the fine-grained xattr API) */
+static int mute;
+#define OUT(...) do { if (!mute) printf(__VA_ARGS__); } while (0)
+
 /* ------------------------------------------------------------------ */
 
 static sqfs_u32 fnv(sqfs_u32 h, const void *p, size_t n)
@@ -75,6 +82,7 @@ static void put_bytes(const char *tag, const void *p, size_t n)
 {
 	const sqfs_u8 *b = p;
 	size_t i;
+	if (mute) return;
 	printf(" %s=%zu:%08x:", tag, n, fnv(FNV0, p, n));
 	for (i = 0; i < n && i < 6; ++i) printf("%02x", b[i]);
 }
@@ -532,26 +540,33 @@ static void dump_xattr_list(sqfs_xattr_t *l)
 		h = fnv(h, &l->value_len, sizeof(size_t));
 		++cnt;
 	}
-	printf(" n=%zu h=%08x", cnt, h);
+	OUT(" n=%zu h=%08x", cnt, h);
+}
+
+/* no xattr table loaded (kvrd == NULL) */
+static int xattr_no_table(const rctx_t *c)
+{
+	return (c->super.flags & SQFS_FLAG_NO_XATTRS) || c->super.xattr_id_table_start == 0xFFFFFFFFFFFFFFFFull;
 }
 
 /* no xattr table loaded: get_desc(0) succeeds with an all-zero descriptor and seek_kv then
  * dereferences the NULL kv reader (memory safety, property C05) -- skipped in both modes */
 static int xattr_null_unsafe(const rctx_t *c, sqfs_u32 idx)
 {
-	return idx == 0 && ((c->super.flags & SQFS_FLAG_NO_XATTRS) ||
-			    c->super.xattr_id_table_start == 0xFFFFFFFFFFFFFFFFull);
+	return idx == 0 && xattr_no_table(c);
 }
 
-static void op_xattr_all(rctx_t *c, sqfs_u32 idx)
+/* returns 1 when the call positioned the kv cursor itself (successful seek_kv inside) */
+static int op_xattr_all(rctx_t *c, sqfs_u32 idx)
 {
 	sqfs_xattr_t *l = NULL;
 	int ret;
-	if (c->xr_err) { printf(" noxattr=%d", c->xr_err); return; }
-	if (xattr_null_unsafe(c, idx)) { printf(" skip-xattr-null"); return; }
+	if (c->xr_err) { OUT(" noxattr=%d", c->xr_err); return 0; }
+	if (xattr_null_unsafe(c, idx)) { OUT(" skip-xattr-null"); return 0; }
 	ret = sqfs_xattr_reader_read_all(c->xr, idx, &l);
-	printf(" %d", ret);
+	OUT(" %d", ret);
 	if (ret == 0) { dump_xattr_list(l); sqfs_xattr_list_free(l); }
+	return ret == 0 && idx != 0xFFFFFFFF && !xattr_no_table(c);
 }
 
 static void op_xattr_desc(rctx_t *c, sqfs_u32 idx)
@@ -564,34 +579,197 @@ static void op_xattr_desc(rctx_t *c, sqfs_u32 idx)
 	if (ret == 0) printf(" x=%" PRIu64 " c=%u s=%u", d.xattr, d.count, d.size);
 }
 
-/* partial iteration with the key/value API: leaves the kv cursor wherever it stops */
-static void op_xattr_partial(rctx_t *c, sqfs_u32 idx, sqfs_u32 k)
+/* partial iteration with the key/value API: leaves the kv cursor wherever it stops;
+ * returns 1 when its seek_kv succeeded */
+static int op_xattr_partial(rctx_t *c, sqfs_u32 idx, sqfs_u32 k)
 {
 	sqfs_xattr_id_t d;
 	sqfs_u32 i, h = FNV0;
 	int ret;
-	if (c->xr_err) { printf(" noxattr=%d", c->xr_err); return; }
-	if (idx == 0xFFFFFFFF) { printf(" none"); return; }
-	if (xattr_null_unsafe(c, idx)) { printf(" skip-xattr-null"); return; }
+	if (c->xr_err) { OUT(" noxattr=%d", c->xr_err); return 0; }
+	if (idx == 0xFFFFFFFF) { OUT(" none"); return 0; }
+	if (xattr_null_unsafe(c, idx)) { OUT(" skip-xattr-null"); return 0; }
 	ret = sqfs_xattr_reader_get_desc(c->xr, idx, &d);
-	printf(" d=%d", ret);
-	if (ret) return;
+	OUT(" d=%d", ret);
+	if (ret) return 0;
 	ret = sqfs_xattr_reader_seek_kv(c->xr, &d);
-	printf(" s=%d", ret);
-	if (ret) return;
+	OUT(" s=%d", ret);
+	if (ret) return 0;
 	for (i = 0; i < k && i < d.count; ++i) {
 		sqfs_xattr_entry_t *key = NULL; sqfs_xattr_value_t *val = NULL;
 		ret = sqfs_xattr_reader_read_key(c->xr, &key);
 		if (ret) break;
 		h = fnv(h, key->key, strlen((const char *)key->key) + 1);
-		if (i + 1 == k && (k & 1)) { sqfs_free(key); printf(" stop-after-key"); ++i; break; }
+		if (i + 1 == k && (k & 1)) { sqfs_free(key); OUT(" stop-after-key"); ++i; break; }
 		ret = sqfs_xattr_reader_read_value(c->xr, key, &val);
 		sqfs_free(key);
 		if (ret) break;
 		h = fnv(h, val->value, val->size);
 		sqfs_free(val);
 	}
-	printf(" n=%u last=%d h=%08x", i, ret, h);
+	OUT(" n=%u last=%d h=%08x", i, ret, h);
+	return !xattr_no_table(c);
+}
+
+static sqfs_u32 xattr_pair_hash(sqfs_u32 h, const char *key, const sqfs_u8 *value, size_t value_len)
+{
+	h = fnv(h, key, strlen(key) + 1);
+	h = fnv(h, value, value_len);
+	h = fnv(h, &value_len, sizeof(size_t));
+	return h;
+}
+
+/* one set read three ways on the same reader: read_all; seek_kv + (read_key, read_value)*; seek_kv + read*.
+ * Returns 1 when the last seek_kv succeeded (the cursor is then defined by this call alone). */
+static int op_xattr_agree(rctx_t *c, sqfs_u32 idx)
+{
+	sqfs_xattr_id_t d;
+	sqfs_xattr_t *l = NULL, *it;
+	sqfs_u32 h1 = FNV0, h2 = FNV0, h3 = FNV0, i;
+	size_t n1 = 0, n2 = 0, n3 = 0;
+	int r1, r2, r3, seek3;
+
+	if (c->xr_err) { OUT(" noxattr=%d", c->xr_err); return 0; }
+	if (idx == 0xFFFFFFFF) { OUT(" none"); return 0; }
+	if (xattr_null_unsafe(c, idx)) { OUT(" skip-xattr-null"); return 0; }
+	r1 = sqfs_xattr_reader_get_desc(c->xr, idx, &d);
+	OUT(" d=%d", r1);
+	if (r1) return 0;
+
+	r1 = sqfs_xattr_reader_read_all(c->xr, idx, &l);
+	if (r1 == 0) {
+		for (it = l; it; it = it->next) { h1 = xattr_pair_hash(h1, it->key, it->value, it->value_len); ++n1; }
+		sqfs_xattr_list_free(l);
+	}
+
+	r2 = sqfs_xattr_reader_seek_kv(c->xr, &d);
+	for (i = 0; r2 == 0 && i < d.count; ++i) {
+		sqfs_xattr_entry_t *key = NULL; sqfs_xattr_value_t *val = NULL;
+		r2 = sqfs_xattr_reader_read_key(c->xr, &key);
+		if (r2) break;
+		r2 = sqfs_xattr_reader_read_value(c->xr, key, &val);
+		if (r2) { sqfs_free(key); break; }
+		h2 = xattr_pair_hash(h2, (const char *)key->key, val->value, val->size);
+		++n2;
+		sqfs_free(key); sqfs_free(val);
+	}
+
+	seek3 = r3 = sqfs_xattr_reader_seek_kv(c->xr, &d);
+	for (i = 0; r3 == 0 && i < d.count; ++i) {
+		sqfs_xattr_t *kv = NULL;
+		r3 = sqfs_xattr_reader_read(c->xr, &kv);
+		if (r3) break;
+		h3 = xattr_pair_hash(h3, kv->key, kv->value, kv->value_len);
+		++n3;
+		sqfs_free(kv);
+	}
+
+	OUT(" r=%d,%d,%d", r1, r2, r3);
+	if (r1 == 0 && r2 == 0 && r3 == 0) {
+		if (h1 == h2 && h2 == h3 && n1 == n2 && n2 == n3) OUT(" AGREE n=%zu h=%08x", n1, h1);
+		else OUT(" DISAGREE n=%zu,%zu,%zu h=%08x,%08x,%08x", n1, n2, n3, h1, h2, h3);
+	} else if (r1 && r2 && r3) {
+		OUT(" FAIL n=%zu,%zu", n2, n3);
+	} else {
+		OUT(" DISAGREE-STATUS n=%zu,%zu", n2, n3);
+	}
+	return seek3 == 0 && !xattr_no_table(c);
+}
+
+/* ---- the fine-grained xattr reader API, one public call per op -------------------------------
+ *
+ * What include/sqfs/xattr_reader.h documents as the state of a loaded reader: ONE position
+ * indicator, set by sqfs_xattr_reader_seek_kv ("point the reader to the start of the key-value
+ * pairs"), advanced by read_key / read_value / read ("advances the internal position indicator").
+ * sqfs_xattr_reader_get_desc is a lookup ("resolves an index to a descriptor"); read_all is
+ * get_desc + seek_kv + reads.  So the answer to a cursor call is a function of the image and of
+ * the CURSOR-DEFINING calls made on the reader since it was loaded: seek_kv, read_key, read_value,
+ * read, read_all -- and, by C10, of nothing before the last seek_kv that succeeded.
+ *
+ * Caller-owned values (kept in both modes): descriptors handed out by get_desc (or made up by
+ * the caller), the type word of keys handed out by read_key, and the list `xpre` of cursor-
+ * defining calls since the last load / the last call that positioned the cursor successfully.
+ * fresh mode: a new reader replays xpre silently, then answers the call; lookups, copies and
+ * re-loads are never replayed. */
+#define XPRE_MAX 48
+typedef struct { char kind; sqfs_xattr_id_t desc; sqfs_u16 ktype; int kout; sqfs_u32 idx, k; } xpre_t;
+static struct { int set; sqfs_xattr_id_t d; } xdslot[NSLOT];
+static struct { int set; sqfs_u16 type; } xkslot[2];
+static xpre_t xpre[XPRE_MAX];
+static size_t nxpre;
+static int xpre_over;
+
+static int xcur_do(rctx_t *c, xpre_t *e)
+{
+	int ret, positioned = 0;
+	switch (e->kind) {
+	case 'S':
+		ret = sqfs_xattr_reader_seek_kv(c->xr, &e->desc);
+		OUT(" s=%d", ret);
+		positioned = ret == 0 && !xattr_no_table(c);
+		break;
+	case 'K': {
+		sqfs_xattr_entry_t *key = NULL;
+		ret = sqfs_xattr_reader_read_key(c->xr, &key);
+		OUT(" r=%d", ret);
+		if (ret == 0) {
+			const char *pfx = sqfs_get_xattr_prefix(key->type & SQFS_XATTR_PREFIX_MASK);
+			OUT(" t=%u", (unsigned)key->type);
+			put_bytes("k", key->key, (pfx ? strlen(pfx) : 0) + key->size);
+			e->ktype = key->type; e->kout = 1;
+			sqfs_free(key);
+		}
+		break; }
+	case 'V': {
+		sqfs_xattr_entry_t key; sqfs_xattr_value_t *val = NULL;
+		memset(&key, 0, sizeof(key));
+		key.type = e->ktype;
+		ret = sqfs_xattr_reader_read_value(c->xr, &key, &val);
+		OUT(" r=%d", ret);
+		if (ret == 0) { put_bytes("v", val->value, val->size); sqfs_free(val); }
+		break; }
+	case 'P': {
+		sqfs_xattr_t *kv = NULL;
+		ret = sqfs_xattr_reader_read(c->xr, &kv);
+		OUT(" r=%d", ret);
+		if (ret == 0) { kv->next = NULL; dump_xattr_list(kv); sqfs_free(kv); }
+		break; }
+	case 'A':
+		positioned = op_xattr_all(c, e->idx);
+		break;
+	case 'Q':
+		positioned = op_xattr_partial(c, e->idx, e->k);
+		break;
+	case 'G':
+		positioned = op_xattr_agree(c, e->idx);
+		break;
+	default:
+		break;
+	}
+	return positioned;
+}
+
+static void xcursor_op(rctx_t *c, xpre_t e, int kslot)
+{
+	int reads = e.kind == 'K' || e.kind == 'V' || e.kind == 'P';
+	int positioned;
+	size_t i;
+
+	if (c->xr_err) { printf(" noxattr=%d", c->xr_err); return; }
+	if (reads) {
+		if (xattr_no_table(c)) { printf(" skip-xattr-null"); return; }
+		if (xpre_over) { printf(" -"); return; }
+		if (fresh_mode) {
+			mute = 1;
+			for (i = 0; i < nxpre; ++i) (void)xcur_do(c, &xpre[i]);
+			mute = 0;
+		}
+	}
+	e.kout = 0;
+	positioned = xcur_do(c, &e);
+	if (e.kind == 'K' && e.kout) { xkslot[kslot].set = 1; xkslot[kslot].type = e.ktype; }
+	if (positioned) { nxpre = 0; xpre_over = 0; }
+	if (nxpre < XPRE_MAX) xpre[nxpre++] = e; else xpre_over = 1;
 }
 
 static void op_id(rctx_t *c, sqfs_u32 idx)
@@ -798,11 +976,86 @@ int main(int argc, char **argv)
 		} else if (!strcmp(op, "A")) {
 			op_agree(c, a);
 		} else if (!strcmp(op, "X")) {
-			op_xattr_all(c, (sqfs_u32)a);
+			xpre_t e; memset(&e, 0, sizeof(e)); e.kind = 'A'; e.idx = (sqfs_u32)a;
+			xcursor_op(c, e, 0);
 		} else if (!strcmp(op, "XD")) {
 			op_xattr_desc(c, (sqfs_u32)a);
 		} else if (!strcmp(op, "XK")) {
-			op_xattr_partial(c, (sqfs_u32)a, (sqfs_u32)b);
+			xpre_t e; memset(&e, 0, sizeof(e)); e.kind = 'Q'; e.idx = (sqfs_u32)a; e.k = (sqfs_u32)b;
+			xcursor_op(c, e, 0);
+		} else if (!strcmp(op, "XA")) {		/* XA idx : one set through read_all, read_key/read_value and read */
+			xpre_t e; memset(&e, 0, sizeof(e)); e.kind = 'G'; e.idx = (sqfs_u32)a;
+			xcursor_op(c, e, 0);
+		} else if (!strcmp(op, "XG")) {		/* XG slot idx : get_desc into a caller-owned descriptor */
+			int s = a % NSLOT;
+			if (c->xr_err) {
+				printf(" noxattr=%d", c->xr_err);
+			} else {
+				sqfs_xattr_id_t dd;
+				int ret = sqfs_xattr_reader_get_desc(c->xr, (sqfs_u32)b, &dd);
+				printf(" %d", ret);
+				xdslot[s].set = 0;
+				if (ret == 0) {
+					printf(" x=%" PRIu64 " c=%u s=%u", dd.xattr, dd.count, dd.size);
+					xdslot[s].set = 1; xdslot[s].d = dd;
+				}
+			}
+		} else if (!strcmp(op, "XGR")) {	/* XGR slot xattr count size : a descriptor the caller made up */
+			int s = a % NSLOT;
+			memset(&xdslot[s].d, 0, sizeof(xdslot[s].d));
+			xdslot[s].d.xattr = b; xdslot[s].d.count = (sqfs_u32)d; xdslot[s].d.size = (sqfs_u32)strtoull(rest, NULL, 10);
+			xdslot[s].set = 1;
+			printf(" ok");
+		} else if (!strcmp(op, "XS")) {		/* XS slot : seek_kv to that descriptor */
+			int s = a % NSLOT;
+			if (!xdslot[s].set) {
+				printf(" -");
+			} else {
+				xpre_t e; memset(&e, 0, sizeof(e)); e.kind = 'S'; e.desc = xdslot[s].d;
+				xcursor_op(c, e, 0);
+			}
+		} else if (!strcmp(op, "XRK")) {	/* XRK kslot : read_key */
+			xpre_t e; memset(&e, 0, sizeof(e)); e.kind = 'K';
+			xcursor_op(c, e, a % 2);
+		} else if (!strcmp(op, "XRV")) {	/* XRV kslot : read_value for the key held in kslot */
+			if (!xkslot[a % 2].set) {
+				printf(" -");
+			} else {
+				xpre_t e; memset(&e, 0, sizeof(e)); e.kind = 'V'; e.ktype = xkslot[a % 2].type;
+				xcursor_op(c, e, 0);
+			}
+		} else if (!strcmp(op, "XRP")) {	/* XRP : sqfs_xattr_reader_read (key and value) */
+			xpre_t e; memset(&e, 0, sizeof(e)); e.kind = 'P';
+			xcursor_op(c, e, 0);
+		} else if (!strcmp(op, "XL")) {		/* XL : sqfs_xattr_reader_load again on the same reader */
+			if (c->xr_err) {
+				printf(" noxattr=%d", c->xr_err);
+			} else {
+				c->xr_err = sqfs_xattr_reader_load(c->xr, &c->super, c->file, c->cmp);
+				printf(" %d", c->xr_err);
+				nxpre = 0; xpre_over = 0;
+			}
+		} else if (!strcmp(op, "XC")) {		/* XC : sqfs_copy of the reader; the history continues on the copy */
+			if (c->xr_err) {
+				printf(" noxattr=%d", c->xr_err);
+			} else {
+				sqfs_xattr_reader_t *cp = sqfs_copy(c->xr);
+				if (cp == NULL) {
+					printf(" copy-failed");
+				} else {
+					/* the original is used once more before it goes away (both of its cursors move):
+					   the copy must not notice */
+					sqfs_xattr_id_t od;
+					if (!xattr_no_table(c) && sqfs_xattr_reader_get_desc(c->xr, 0, &od) == 0 &&
+					    sqfs_xattr_reader_seek_kv(c->xr, &od) == 0) {
+						sqfs_xattr_entry_t *ok = NULL;
+						if (sqfs_xattr_reader_read_key(c->xr, &ok) == 0) sqfs_free(ok);
+					}
+					sqfs_drop(c->xr);
+					c->xr = cp;
+					printf(" ok");
+				}
+			}
 		} else if (!strcmp(op, "U")) {
 			op_id(c, (sqfs_u32)a);
 		} else if (!strcmp(op, "L")) {		/* L start count : (re)load the fragment table */
